@@ -6,3 +6,5 @@ pub use crate::item::{parse_criteria, ItemPool, MatchedItem, RankBuilder, RankCr
 pub use crate::orderedvec::OrderedVec;
 pub use crate::event::{parse_event, Event, EventHandler, UpdateScreen};
 pub use crate::query::Query;
+pub use crate::global::{current_run_num, mark_new_run};
+pub use crate::selection::Selection;
